@@ -117,6 +117,7 @@ class Check:
         guard = 0
         while count < n and guard < 60:
             guard += 1
+            before_count = count
             f = rng.choices(forms, weights)[0]
             nxt = num + 1
             if f == 'ok':
@@ -198,6 +199,17 @@ class Check:
             elif f == 'okay':
                 lines.append(rng.choice(['okay', 'ok1x', f'ok {nxt} # TODO: colon', f'ok {nxt} # a # SKIP b']))
                 num = nxt; count += 1
+            # a YAML block may follow *any* kind of test line (plain, SKIP, TODO, numbered or not)
+            if count > before_count and f not in ('yaml', 'yaml_unterminated', 'yaml_broken', 'yaml_tab') and rng.random() < sw.get('yaml_after', 0.0):
+                ind = rng.choice(['  ', '    ', '\t'])
+                lines.append(f'{ind}---')
+                for _ in range(rng.randint(0, 2)):
+                    lines.append(ind + rng.choice(['message: "x"', 'severity: todo', 'ok 9', '# c']))
+                style = rng.choice(['closed', 'closed', 'open', 'broken'])
+                if style == 'closed':
+                    lines.append(f'{ind}...')
+                elif style == 'broken':
+                    lines.append(rng.choice(['unindented text', '# diag']))
             if plan_pos == 'middle' and count == max(1, n // 2) and not any(l.startswith('1..') for l in lines):
                 lines.append(f'1..{plan_n}')
         if plan_pos == 'late' or (plan_pos == 'middle' and not any(l.startswith('1..') for l in lines)):
@@ -218,6 +230,7 @@ class Check:
             'arbitrary_p': rng.choice([0.0, 0.0, 0.0, 0.5]),
             'timeout_p': rng.choice([0.0, 0.0, 0.2]),
             'exit_p': rng.choice([0.0, 0.2, 0.5]),
+            'yaml_after': rng.choice([0.0, 0.0, 0.3, 0.7]),
         }
         ntests = rng.choice([1, 1, 2, 3, 4])
         tests = []
